@@ -1,5 +1,13 @@
 # Per-property job tables for vcheck. checks = rapid cases per shard.
 PROPS = {
+    "C01": {
+        "level": "exploration",
+        "jobs": [
+            {"test": "TestC01", "variant": "std",
+             "quick": {"checks": 2500, "shards": 12, "timeout": 300},
+             "thorough": {"checks": 40000, "shards": 16, "timeout": 1500}},
+        ],
+    },
     "C13": {
         "level": "exploration",
         "jobs": [
